@@ -127,7 +127,10 @@ class TypeRender:
 
     # ------------------------------------------------------------ type-level attributes
     def bound_mode(self, t):
-        return (self.opts.get('bounds') or {}).get(t, 'auto')
+        b = self.opts.get('bounds') or {}
+        if t in b:
+            return b[t]
+        return b.get(t.split(':')[0], 'auto')
 
     def bound_param(self, t, mode=None, site=None):
         b = mode or self.bound_mode(t)
